@@ -129,6 +129,55 @@ class CompMixin:
         # symbolic: a fresh list whose elements are described by a lazy universal
         src = self.comp_source(c, st)
         e, env, mod, g = self.comp_parts(c)
+        raising = self.comp_raising_paths(c, st, src, node)
+        if raising:
+            return raising + self._comp_to_list_sym(c, st, src, node)
+        return self._comp_to_list_sym(c, st, src, node)
+
+    def comp_raising_paths(self, c, st, src, node):
+        """exceptions inside a comprehension over a symbolic source: evaluate the element expression once, in code mode, for a generic
+        index; every raising path of that evaluation is a raising path of the comprehension"""
+        if self.spec_mode:
+            return []
+        e, env, mod, g = self.comp_parts(c)
+        n = z3.Length(src[1]) if src[0] == "seq" else src[1]
+        tmp = st.fork()
+        j = fresh("_comp_j")
+        tmp.assume(z3.And(j >= 0, j < n))
+        if not feasible(tmp.pc):
+            return []
+        saved = (self.cur_mod,)
+        caller_env = tmp.env
+        tmp.env = dict(env)
+        self.cur_mod = mod
+        out = []
+        try:
+            for s1 in self.assign(g.target, src[3](tmp, j), tmp):
+                states = [s1]
+                for cond in g.ifs:
+                    nxt = []
+                    for s2 in states:
+                        for s3, b in self.ev_truth(cond, s2):
+                            if b is None:
+                                out.append(s3)
+                            elif b:
+                                nxt.append(s3)
+                    states = nxt
+                for s2 in states:
+                    for s3, v in self.ev(e.elt if not isinstance(e, ast.DictComp) else e.key, s2):
+                        if s3.status == "raise":
+                            out.append(s3)
+        finally:
+            self.cur_mod = saved[0]
+        res = []
+        for s3 in out:
+            if s3.status == "raise":
+                s3.env = dict(caller_env)
+                res.append((s3, None))
+        return res
+
+    def _comp_to_list_sym(self, c, st, src, node):
+        e, env, mod, g = self.comp_parts(c)
         if g.ifs:
             res = fresh("filtered", SeqV)
             return [(st, vref(st.new_list(res), cls="list"))]
